@@ -42,7 +42,7 @@ CLAIMED["C13"] = {
 }
 
 CLAIMED["C16"] = {
-    "technique": "Coq proofs about an ordered-map model for all operation sequences (om_invariant, no_lost_update, marshal_each_key_once, first_insertion_order) + lock-discipline obligation locks_ok discharged by computation on the collection method bodies regenerated from catalog/*_gen.go and directive/directives_gen.go; race-detector stress runs are labelled exploration in the evidence",
+    "technique": "Coq proofs about an ordered-map model for all operation sequences (om_invariant, no_lost_update, marshal_each_key_once, first_insertion_order; each_stops_at_first_error, find_first_match, rules_each_stops_at_first_error for Each/EachReverse/Find with a failing callback in every state) + lock-discipline obligation locks_ok discharged by computation on the collection method bodies regenerated from catalog/*_gen.go and directive/directives_gen.go; race-detector stress runs are labelled exploration in the evidence",
     "text": "Partial by nature: every method is proved atomic-under-lock (regenerated lock facts) and the sequential semantics is proved for all operation sequences, i.e. all linearisations; data races, the Go memory model and the schema library are explored with -race stress runs, not proved.",
     "note": "Trusted: Coq kernel, go2coq (method-body normal forms), extraction, harness. Not modelled: sync.RWMutex, Go memory model, schema library internals. Known finding: concurrent parses corrupt schema example strings (pooled buffer in the schema library).",
     "design_ref": "7 (C16)",
@@ -251,7 +251,7 @@ CLAIMED["C13"] = {
 }
 
 CLAIMED["C16"] = {
-    "technique": "Coq proofs about an ordered-map model for all operation sequences (om_invariant, no_lost_update, marshal_each_key_once, first_insertion_order) + lock-discipline obligation locks_ok discharged by computation on the collection method bodies regenerated from catalog/*_gen.go and directive/directives_gen.go; race-detector stress runs are labelled exploration in the evidence",
+    "technique": "Coq proofs about an ordered-map model for all operation sequences (om_invariant, no_lost_update, marshal_each_key_once, first_insertion_order; each_stops_at_first_error, find_first_match, rules_each_stops_at_first_error for Each/EachReverse/Find with a failing callback in every state) + lock-discipline obligation locks_ok discharged by computation on the collection method bodies regenerated from catalog/*_gen.go and directive/directives_gen.go; race-detector stress runs are labelled exploration in the evidence",
     "text": "Partial by nature: every method is proved atomic-under-lock (regenerated lock facts) and the sequential semantics is proved for all operation sequences, i.e. all linearisations; data races, the Go memory model and the schema library are explored with -race stress runs, not proved.",
     "note": "Trusted: Coq kernel, go2coq (method-body normal forms), extraction, harness. Not modelled: sync.RWMutex, Go memory model, schema library internals. Known finding: concurrent parses corrupt schema example strings (pooled buffer in the schema library).",
     "design_ref": "7 (C16)",
